@@ -61,6 +61,8 @@ def _build(name, source, flags, libs, incfirst, std, opt):
         if ".tmp" in old:
             continue
         try:
+            if time.time() - os.path.getmtime(old) < 3 * 3600:      # may belong to a concurrent run on another tree
+                continue
             os.remove(old)
         except OSError:
             pass
